@@ -102,6 +102,9 @@ func allDocuments() []*document {
 		// 5.2.3.1 single root field of subscriptions
 		&document{ID: "bad-subscription-two-roots", Text: "subscription A { s1 count(n: 1) }", Invalid: "validation",
 			Ops: []opDecl{{Name: "A", Kind: "subscription", Field: "s1"}}},
+		// refused by a validation rule the application added (validator.AddRule), whose errors carry
+		// the application's own extension code
+		&document{ID: "bad-custom-rule", Text: "query A { zzforbidden: q1 }", Invalid: "validation", Ops: []opDecl{{Name: "A", Kind: "query", Field: "q1"}}},
 		// no operation at all
 		&document{ID: "bad-empty", Text: "", Invalid: "no-operation"},
 		&document{ID: "bad-fragment-only", Text: "fragment F on Query { q1 }", Invalid: "no-operation"},
